@@ -132,3 +132,14 @@ def golden_support():
     from pathlib import Path
 
     return json.loads((Path(__file__).resolve().parent / "data" / "golden_support.json").read_text())
+
+
+@lru_cache(maxsize=None)
+def golden_native():
+    """Pinned naming map of the repaired tree: force field -> state -> canonical atom -> [native
+    residue, native atom].  The documented residue/atom naming map is part of what C01 quantifies
+    over; an entry that silently points somewhere else is a regression (new entries are allowed)."""
+    import json
+    from pathlib import Path
+
+    return json.loads((Path(__file__).resolve().parent / "data" / "golden_native.json").read_text())
